@@ -37,6 +37,40 @@ def run(ctx, replay=None):
     cov["regenerated"] = {"Resources/SitesGen.v": {"dial_sites": len(sites), "sites": sites}}
     rng = random.Random(ctx.seed * 7919 + 18)
     plans = [(1, 10, [1]), (1, 100, [1]), (3, 60, [1, 2])] if ctx.tier == "quick" else [(1, 10, [1]), (1, 100, [1]), (1, 1000, [1]), (4, 400, [1, 2]), (8, 240, [1])]
+    # ---- exchanges the peer never answers (5 s timer each), in parallel with the main measurement
+    import threading
+    silent = {}
+
+    def silent_run():
+        class C:
+            pass
+        c = C()
+        c.workdir = os.path.join(ctx.workdir, "silent")
+        os.makedirs(c.workdir, exist_ok=True)
+        sim2 = pc.Sim(c, extra=["-timeout", "40s"])
+        try:
+            a, b = "imsi-208930001800001", "imsi-208930001800002"
+            sim2.do({"op": "account", "supi": a, "rg": 1, "quota": "100000", "unitCost": "1"})
+            sim2.do({"op": "account", "supi": b, "rg": 1, "quota": "250.50", "unitCost": "1"})     # the ABMF drops requests on a non-integer balance
+            ra = sim2.do({"op": "create", "body": body(a, 1, 0, 1, [1])})["location"].rsplit("/", 1)[-1]
+            rb = sim2.do({"op": "create", "body": body(b, 1, 0, 1, [1])})["location"].rsplit("/", 1)[-1]
+            for i in range(3):
+                w = sim2.do({"op": "update", "ref": ra, "body": body(a, 2 + i, 0, 2 + i, [1])})
+            steps = []
+            n = 1 if ctx.tier == "quick" else 3
+            for i in range(n):
+                o = sim2.do({"op": "update", "ref": ra, "body": body(a, 10 + i, 10, 10 + i, [5])})       # no tariff for rating group 5: the rating function stays silent
+                steps.append(("rating group without tariff", o))
+                for j in range(3):
+                    o = sim2.do({"op": "update", "ref": rb, "body": body(b, 2 + 3 * i + j, 0, 2 + 3 * i + j, [1])})
+                    steps.append(("account balance not an integer", o))
+            o = sim2.do({"op": "sleep", "ms": 1500})
+            steps.append(("1.5 s later", o))
+            silent.update({"warm": w, "steps": steps})
+        finally:
+            sim2.close()
+    th = threading.Thread(target=silent_run)
+    th.start()
     sim = pc.Sim(ctx, extra=["-countanswers"])
     hists, stats = [], []
     try:
@@ -77,9 +111,22 @@ def run(ctx, replay=None):
             hists.append((hid, nsub, nupd, rgs, trace, warm, base))
     finally:
         sim.close()
+    th.join()
     # ---- monitor on the implementation's own numbers
     found = False
     samples = []
+    if silent:
+        w = silent["warm"]
+        sstats = [{"after": what, "ms": o.get("elapsed_ms"), "established": o["rfConns"] + o["abmfConns"], "goroutines": o["goroutines"]} for (what, o) in silent["steps"]]
+        cov["unanswered_exchanges"] = {"goroutines_warm": w["goroutines"], "steps": sstats}
+        worst = max(silent["steps"], key=lambda s: (s[1]["rfConns"] + s[1]["abmfConns"], s[1]["goroutines"]))
+        last = silent["steps"][-1][1]
+        if last["rfConns"] + last["abmfConns"] > 0 or last["goroutines"] > w["goroutines"] + 1:
+            found = True
+            ctx.violations.append({"property": "C18", "key": "C18/unanswered-request-leaves-resources", "found_input": True, "seed": ctx.seed,
+                                   "what": "requests whose Diameter exchange got no answer (5 s timer) leave %d established connection(s) and %d goroutines (%d before)"
+                                           % (last["rfConns"] + last["abmfConns"], last["goroutines"], w["goroutines"]),
+                                   "replay": {"steps": sstats, "how": "update naming rating group 5 (no tariff: the rating function does not answer); update of a subscriber whose stored balance is \"250.50\" (the account server does not answer)"}})
     for (hid, nsub, nupd, rgs, trace, warm, base) in hists:
         last = trace[-1][2]
         peak = max(o["rfConns"] + o["abmfConns"] for (_, _, o) in trace)
